@@ -186,6 +186,8 @@ def strategy(tier):
                 st.tuples(st.just("press"), st.integers(0, 23)),
                 st.tuples(st.just("wc"), st.integers(0, 4)),
                 st.tuples(st.just("refresh")),
+                st.tuples(st.just("wc"), st.integers(0, 4), st.just("retry")),
+                st.tuples(st.just("refresh"), st.just("retry")),
                 st.tuples(st.just("statp"), st.integers(0, 1000), st.integers(0, 65535)),
                 # something unpleasant happens on the receive side of the live connection (the numbering must not notice)
                 st.tuples(st.just("rx"), st.sampled_from(["refused", "reset", "unreachable", "timeout", "junk", "empty"])),
@@ -193,7 +195,7 @@ def strategy(tier):
             min_size=1,
             max_size=12,
         ),
-        st.tuples(st.integers(0, 200), st.integers(0, 70)).map(list),
+        st.one_of(st.tuples(st.integers(0, 200), st.integers(0, 70)), st.tuples(st.integers(186, 191), st.integers(0, 70))).map(list),
     )
     wire_async = st.builds(
         lambda ops, pre, lose: dict({"k": "wire_async", "ops": ops, "pre": pre}, **({"lose": sorted(set(lose))} if lose else {})),
@@ -204,6 +206,7 @@ def strategy(tier):
                 st.tuples(st.just("getwc")), st.tuples(st.just("setwc"), st.integers(0, 4)), st.tuples(st.just("rem")),
                 st.tuples(st.just("refresh")), st.tuples(st.just("channel")),
                 st.tuples(st.just("statp"), st.integers(0, 1000), st.integers(0, 255)),
+                st.tuples(st.just("reconnect")),
             ).map(list),
             min_size=1,
             max_size=10,
@@ -415,6 +418,26 @@ def _run_wire_sync(res, case):
         exp = m.next(kind)
         if seq != exp:
             res.fail(f"C16|wire_sync|{op[0]}|successor", f"{verb!r} seq {seq}, expected {exp}")
+        elif len(op) > 1 and op[-1] == "retry" and getattr(new[0][0], "_retry_count", 0) > 0 and op[0] in ("wc", "refresh"):
+            # the request goes unanswered for one timeout: the blocking client transmits the very same datagram again - same number,
+            # neither counter moves
+            h = new[0][0]
+            h.last_destination = spa.sendparms[:2]
+            n_before = len(spa._send_handlers)
+            h.retry(spa)
+            again = spa._send_handlers[n_before:]
+            if len(again) != 1:
+                res.fail(f"C16|wire_sync|{op[0]}|retransmission-count", f"{len(again)} datagrams queued by one retry")
+            else:
+                v2, s2 = _seq_of_content(_unframe(again[0][0].send_bytes))
+                if (v2, s2) != (verb, seq):
+                    res.fail(f"C16|wire_sync|{op[0]}|retransmission", f"{verb!r} #{seq} was retransmitted as {v2!r} #{s2}")
+                probe = Model()
+                probe.p, probe.c = m.p, m.c
+                # the next numbers of both cycles are still the successors of what was handed out before the retry
+                nxt_p, nxt_c = spa.get_and_increment_sequence_counter(False), spa.get_and_increment_sequence_counter(True)
+                if (nxt_p, nxt_c) != (m.next(False), m.next(True)):
+                    res.fail(f"C16|wire_sync|{op[0]}|retransmission-moved-counters", f"after retransmitting {verb!r} #{seq} the counters hand out {nxt_p} / {nxt_c}")
     res.nontrivial = n_cmd > 0
     res.label("wire_sync")
 
